@@ -491,6 +491,18 @@ def check_index(ctx, case):
         if not ok_exc:
             probs.append(('violation', 'index-exception-' + m, '%s: %s' % (type(exc).__name__, str(exc)[:120])))
         return probs
+    if isinstance(res, pe.Corr):
+        # the result is a usable correlator: blocks of shape (1,) for N = 1 and (N, N) otherwise, indexing returns
+        # the observable, the error analysis runs
+        want_shape = (1,) if res.N == 1 else (res.N, res.N)
+        bad_ = [t for t, g in enumerate(res.content) if g is not None and np.asarray(g, dtype=object).shape != want_shape]
+        if bad_:
+            probs.append(('violation', 'result-malformed-' + m, 'N=%d but timeslice %d has shape %r' % (res.N, bad_[0], np.asarray(res.content[bad_[0]], dtype=object).shape)))
+        else:
+            try:
+                res.gamma_method()
+            except Exception as e_:
+                probs.append(('violation', 'result-malformed-' + m, 'gamma_method of the result: %s: %s' % (type(e_).__name__, str(e_)[:100])))
     if exp is not None:
         if res.T != len(exp):
             probs.append(('violation', 'index-T-' + m, '%d vs %d' % (res.T, len(exp))))
@@ -593,7 +605,7 @@ def gen_case(ctx):
         if f in ('sqrt', 'log') and rng.random() < 0.5:
             lo, hi = (-0.8, 2.0)      # negative arguments -> NaN -> undefined
         return {'kind': 'func', 'a': gen_corr(rng, lo=lo, hi=hi), 'f': f}
-    m = rng.choice(['roll', 'reverse', 'thin', 'symmetric', 'anti_symmetric', 'T_symmetry', 'item', 'trace', 'matrix_symmetric', 'projected', 'hankel', 'hankel', 'repr', 'ctor', 'real', 'imag', 'getitem'])
+    m = rng.choice(['roll', 'reverse', 'thin', 'symmetric', 'anti_symmetric', 'T_symmetry', 'item', 'trace', 'matrix_symmetric', 'projected', 'projected', 'projected', 'hankel', 'hankel', 'repr', 'ctor', 'real', 'imag', 'getitem'])
     if m in ('real', 'imag'):
         cp = rng.random() < 0.6
         a = gen_corr(rng, cplx=cp)
@@ -634,10 +646,9 @@ def gen_case(ctx):
             return {'form': 'list', 'vs': [vec() for _ in range(T)]}
         L, R = spec(), spec()
         normalize = rng.random() < 0.5
-        if not normalize:       # undefined vectors on some timeslices (the normalisation does not accept them)
-            for sp in (L, R):
-                if sp['form'] == 'list' and rng.random() < 0.4:
-                    sp['vs'][rng.randrange(T)] = None
+        for sp in (L, R):       # undefined vectors on some timeslices (as in the lists GEVP returns for t <= t0)
+            if sp['form'] == 'list' and rng.random() < 0.6:
+                sp['vs'][rng.randrange(T)] = None
         case['args'] = {'L': L, 'R': R, 'normalize': normalize}
     elif m == 'ctor':
         case['args'] = {'form': rng.choice(['corr2d', 'corr2d', 'array3d', 'array1d']),
